@@ -74,6 +74,14 @@ CHECKS = {
          "Every built-in method on a proper receiver and on an instance of a language-level subclass of the built-in class, with every argument tuple of its arity over a 43-value adversarial pool and neighbouring arities; 20 unary and 6 binary constructs over every value / ordered pair; slices over extreme bounds; recursion depth x frame width; nesting ladders to 10^4/10^5; self-containing data, mutation during iteration, fiber misuse. The run must end Ok or with a reported error, never panic/crash/hang, and a failing built-in call inside try/catch must reach the handler with an error-class instance.",
          "Two open findings (KF-C02-01 natives through derived classes, KF-C02-02 equality of distinct cyclic containers) attributed by receiver kind + panic message / by case identity. Every other corpus of this framework also runs on the checked runner, where a panic is a mismatch.",
          "5/C02"),
+ "C10": ("exhaustive enumeration of build configurations x programs on really built binaries",
+         "The dev profile and the release profile with none/all (quick) or every one of the 32 subsets (thorough) of the five feature switches are built from /repo's working tree with the hooks OFF; every repository script (with its module table) and every 4th/2nd program of the generator corpora runs on every configuration; printed lines and outcome (addresses normalised) must be identical across configurations.",
+         "Programs on which the checked build panics are excluded (C02's verdict; undefined behaviour in the optimised build). The fiber/raw-pointer agreement monitor runs in C09's 170k replays.",
+         "5/C10"),
+ "C16": ("exhaustive enumeration of loop programs + runtime invariant monitor over every allocation event of the optimised build",
+         "Every loop program whose body is a multiset of 1-2 (3) of 20 allocation kinds x 3 live-set shapes runs in the release build with the allocation log: at each of ~2M allocation/collection events the pacing rule (no allocation at/above the threshold without a collection; heap <= max(2 x survivors, 64 KiB) + one allocation; threshold = 2 x survivors; collections only when the threshold was reached), continuous and exact accounting, a clean residue after dropping the interpreter, and equal live-object counts after n and 2n iterations are checked.",
+         "Interned strings and compiled code are excluded from the n-vs-2n comparison by type name, as the property states.",
+         "5/C16"),
 }
 NOT_YET = "check not built yet in this revision of /verif (work in progress; see DESIGN.md section 10)"
 
